@@ -118,6 +118,10 @@ pub fn fuzz_stage(ctx: &Ctx, build_dir: &Path, budget: Duration) -> (u64, Vec<Va
     let mut harness_error: Option<String> = None;
     let mut fuzz_reports: Vec<Value> = Vec::new();
     let fuzz_dir = PathBuf::from(std::env::var("MLV_FUZZ_DIR").unwrap_or_else(|_| ctx.verif_dir.join("fuzz").display().to_string()));
+    if std::env::var("MLV_SKIP_FUZZ").is_ok() {
+        // sensitivity runs may skip the (slow) fuzz stage; never set by the registered commands
+        return (0, vec![json!({"skipped": "MLV_SKIP_FUZZ set"})], None);
+    }
     for (target, mode) in fuzz_targets_for(&ctx.id) {
         let script = fuzz_dir.join("campaign.sh");
         if !script.exists() {
